@@ -5,7 +5,7 @@ import re
 
 from .facts import (Facts, AnalysisBroken, walk_expr, walk_all_exprs, walk_stmts, show, strip_casts, strip_copies,
                     member_path, strip_conv)
-from .genrules import GenModel, is_call, field_chain, direct_exprs
+from .genrules import GenModel, is_call, field_chain, direct_exprs, guard_implies
 from .props_c02 import Multi
 from . import cmpeval
 
@@ -226,6 +226,7 @@ def forwarded_errors_rule(R, pf, parse):
                 if v['cty'] in ('Theo::ScanResult', 'Theo::MacroExtractionResult', 'Theo::MacroApplicationResult'):
                     stage_vars.append(v)
     merged = set()
+    merge_call_events = []
     # the merge: a loop pushing into a.errors from a collection built from X.errors
     for st in walk_stmts(parse['body']):
         if st['k'] == 'rangefor':
@@ -245,6 +246,25 @@ def forwarded_errors_rule(R, pf, parse):
                         b = strip_casts(x['base'])
                         if b.get('k') == 'ref':
                             merged.add(b.get('d'))
+    # ... or a helper (lambda / function) that appends a given error list to a.errors, called with X.errors
+    appenders = set()
+    for f2 in pf.functions:
+        if f2['tmpl'] == 'pattern':
+            continue
+        is_local_lambda = f2['kind'] == 'lambda' and f2.get('parent', '').startswith('Theo::parse')
+        if not (is_local_lambda or f2['file'] == parse['file']):
+            continue
+        for st in walk_stmts(f2['body']):
+            if st['k'] == 'rangefor' and strip_casts(st['range']).get('dk') == 'param':
+                if any(is_call(e, '::push_back') and field_chain(e['obj'])[1][-1:] == ['errors'] for e in walk_all_exprs(st['body'])):
+                    appenders.add(f2['q'])
+    for e in walk_all_exprs(parse['body']):
+        if e.get('k') == 'call' and ((e.get('callee_lambda_id') in appenders) or (e.get('callee') in appenders)):
+            for a in e['args']:
+                for x in walk_expr(a):
+                    if x.get('k') == 'member' and x['name'] == 'errors' and strip_casts(x['base']).get('k') == 'ref':
+                        merged.add(strip_casts(x['base']).get('d'))
+                        merge_call_events.append(e)
     # no way out of parse() between a stage and the merge
     from .props_c02 import Multi
     M2 = Multi(pf)
@@ -254,6 +274,9 @@ def forwarded_errors_rule(R, pf, parse):
         if st['k'] == 'rangefor':
             if any(is_call(e, '::push_back') and field_chain(e['obj'])[1][-1:] == ['errors'] for e in walk_all_exprs(st['body'])):
                 merge_nodes.extend(n for n in g.nodes if n.stmt is st and n.kind == 'cond')
+    for e in merge_call_events:
+        if e.get('sid') in g.by_sid:
+            merge_nodes.append(g.by_sid[e['sid']].node)
     stage_calls = [ev for ev in g.calls() if (ev.e.get('callee') or '') in ('Theo::scan', 'Theo::extract_macros', 'Theo::apply_macros')]
     early = []
     for rn in g.returns():
@@ -515,7 +538,10 @@ def c09(rep, tier):
                     constrained |= set(labs)
                 if 'template_token_indices' in txt:
                     slots |= set(labs)
-    F.check(constrained == {'ID', 'NV_ID', 'INT'}, 'push_rule: text-constrained kinds', sorted(constrained), 'text-constrained kinds are %s' % sorted(constrained), W(pr, None, mm.facts))
+    if not constrained and not slots:
+        F.unknown('push_rule: kind tables', 'push_rule does not classify the pattern tokens with a switch over their kind: tables not recognised', W(pr, None, mm.facts))
+    else:
+        F.check(constrained == {'ID', 'NV_ID', 'INT'}, 'push_rule: text-constrained kinds', sorted(constrained), 'text-constrained kinds are %s' % sorted(constrained), W(pr, None, mm.facts))
     dslots = {}
     for f in mm.facts.functions:
         if f['kind'] == 'lambda' and f.get('parent', '').startswith('MacroDetector::MacroDetector'):
@@ -524,16 +550,21 @@ def c09(rep, tier):
                     for c in st['cases']:
                         labs = [l.get('name') for l in c['labels'] if isinstance(l, dict)]
                         pbs = [e for s in c['s'] for e in walk_all_exprs(s) if is_call(e, '::push_back')]
+                        rts = [x for s in c['s'] for x in walk_stmts(s) if x['k'] == 'return' and x.get('e') is not None]
                         for l in labs:
-                            dslots[l] = show(strip_copies(pbs[0]['args'][0])) if pbs else None
+                            dslots[l] = show(strip_copies(pbs[0]['args'][0])) if pbs else (show(strip_copies(strip_casts(rts[0]['e']))) if rts else None)
     okslots = set(dslots) == slots and len(slots) == 5 and len(set(dslots.values())) == 5 and all(v and 'term(' not in v for v in dslots.values())
-    F.check(okslots, 'slot kinds', '%s -> %s' % (sorted(slots), dslots), 'push_rule slots %s vs detector slots %s' % (sorted(slots), dslots), W(ctor, None, mm.facts))
+    if not dslots or not slots:
+        F.unknown('slot kinds', 'slot table of %s not recognised' % ('the detector' if not dslots else 'push_rule'), W(ctor, None, mm.facts))
+    else:
+      F.check(okslots, 'slot kinds', '%s -> %s' % (sorted(slots), dslots), 'push_rule slots %s vs detector slots %s' % (sorted(slots), dslots), W(ctor, None, mm.facts))
     cc = mm.facts.fn('MacroDetector::check_constraint')
-    cmpx = [e for e in walk_all_exprs(cc['body']) if e.get('k') in ('bin', 'call') and e.get('op') == '!=' and 'text' in show(e)]
+    bodies = [cc['body']] + [f['body'] for f in mm.facts.functions if f['kind'] == 'lambda' and f.get('parent', '').startswith('MacroDetector::check_constraint')]
+    cmpx = [e for b in bodies for e in walk_all_exprs(b) if e.get('k') in ('bin', 'call') and e.get('op') in ('!=', '==') and 'text' in show(e)]
     okcc = False
     for e in cmpx:
         s = show(e)
-        okcc = okcc or ('.text' in s and 'requirement' in s or s.count('.text') == 2)
+        okcc = okcc or s.count('.text') == 2 or s.count('text') >= 2
     F.check(okcc, 'check_constraint: compares text', 'found[0].text != requirement.text -> reject', 'constraint no longer compares token text', W(cc, None, mm.facts))
     c09_detector_grammar(rep, mm)
     G = rep.rule('C09.g', 'a detector scans start positions ascending and returns the first accepted, constraint-satisfying match', floor=1)
@@ -573,30 +604,57 @@ def c12(rep, tier):
         rets = [s for s in walk_stmts(ge['body']) if s['k'] == 'return']
         ok = ok and len(rets) == 1
     A.check(ok, 'getErrors', 'non-empty iff gen_res non-empty; type MACRO_COMPILE_NON_LR; location of the first pattern token', why, W(ge, None, mm.facts))
-    B = rep.rule('C12.b', 'only detectors without error reach the priority bins', floor=2)
+    B = rep.rule('C12.b', 'only detectors without error reach the priority bins', floor=1)
     gam = mm.M.cfg(am)
-    usable = None
+    pname = prios_name(am)
+
+    def errors_empty(c):
+        t = show(c).replace(' ', '')
+        return (is_call(c, '::empty') or (c.get('k') == 'bin' and c['op'] == '==' and 'size()' in t and t.endswith('==0)'))) and ('err' in t.lower())
+    lists = {}      # did -> True when every push into that detector list is guarded by "no errors"
+    direct_ok = []
     for ev in gam.calls():
-        if is_call(ev.e, '::push_back') and strip_casts(ev.e['obj']).get('k') == 'ref' and 'MacroDetector' in (ev.e['obj'].get('cty') or ''):
-            guards = [(show(c), l) for c, l, cn in gam.guards_of(ev)]
-            if any(('size() == 0' in c or 'empty()' in c) and l is True for c, l in guards):
-                usable = strip_casts(ev.e['obj'])
-                B.ok('apply_macros: usable', 'pushed only under an empty local error list (%s)' % guards[-1][0], W(am, ev.e, mm.facts))
-    if usable is None:
-        B.violation('apply_macros: usable', 'no list of conflict-free detectors is built', W(am, None, mm.facts))
-    else:
-        # bins are filled from `usable` only
-        fe = [e for e in walk_all_exprs(am['body']) if e.get('k') == 'call' and (e.get('callee') or '') in ('std::for_each',) and
-              any(c.get('name') == (prios_name(am) or '') for a in e['args'] for x in walk_expr(a) if x.get('k') == 'lambda' for c in x.get('captures', []))]
-        okb = False
-        if fe:
-            a0 = strip_conv(fe[0]['args'][0])
-            okb = is_call(a0, '::begin') and strip_casts(a0['obj']).get('d') == usable.get('d')
-        else:
-            for st in walk_stmts(am['body']):
-                if st['k'] == 'rangefor' and 'prios' in ' '.join(show(e) for e in walk_all_exprs(st['body'])):
-                    okb = strip_casts(st['range']).get('d') == usable.get('d')
-        B.check(okb, 'apply_macros: bins filled from usable', 'the priority bins iterate the conflict-free list', 'bins are filled from another list (rejected macros would be applied)', W(am, None, mm.facts))
+        e = ev.e
+        if not (is_call(e, '::push_back') or is_call(e, '::emplace_back')) or e.get('obj') is None:
+            continue
+        if 'MacroDetector' not in (e['obj'].get('cty') or ''):
+            continue
+        tgt = strip_casts(e['obj'])
+        g_ok = any(label is True and errors_empty(strip_casts(cond)) for cond, label, cn in gam.guards_of(ev))
+        if tgt.get('k') == 'ref' and tgt.get('dk') == 'var':
+            lists[tgt['d']] = lists.get(tgt['d'], True) and g_ok
+            if g_ok:
+                B.ok('apply_macros: %s.push_back' % tgt['name'], 'pushed only under an empty local error list', W(am, e, mm.facts))
+        elif pname and pname in show(tgt):
+            direct_ok.append(g_ok)
+            if g_ok:
+                B.ok('apply_macros: %s[...].push_back' % pname, 'a detector enters a priority bin only under an empty local error list', W(am, e, mm.facts))
+    # bins filled from a list (std::for_each with a lambda, or a loop whose pushes are not themselves guarded): that list must be a guarded one
+    fe = [e for e in walk_all_exprs(am['body']) if e.get('k') == 'call' and (e.get('callee') or '') in ('std::for_each',) and
+          any(c.get('name') == (pname or '') for a in e['args'] for x in walk_expr(a) if x.get('k') == 'lambda' for c in x.get('captures', []))]
+    srcs = []
+    for e in fe:
+        a0 = strip_conv(e['args'][0])
+        if is_call(a0, '::begin'):
+            srcs.append(strip_casts(a0['obj']))
+    for st in walk_stmts(am['body']):
+        if st['k'] == 'rangefor' and 'MacroDetector' in (st['range'].get('cty') or ''):
+            unguarded_here = False
+            for ev in gam.calls():
+                e = ev.e
+                if (is_call(e, '::push_back') or is_call(e, '::emplace_back') or is_call(e, '::insert')) and e.get('obj') is not None and pname and pname in show(e['obj']) \
+                        and any(x is e for x in walk_all_exprs(st['body'])):
+                    if not any(label is True and errors_empty(strip_casts(cond)) for cond, label, cn in gam.guards_of(ev)):
+                        unguarded_here = True
+            if unguarded_here:
+                srcs.append(strip_casts(st['range']))
+    for src in srcs:
+        if src is not None and src.get('k') == 'ref':
+            okb = lists.get(src.get('d')) is True
+            B.check(okb, 'apply_macros: bins filled from %s' % src.get('name'), 'the priority bins are filled from a list that only receives conflict-free detectors',
+                    'the bins are filled from %s, which also holds rejected detectors (rejected macros would be applied)' % src.get('name'), W(am, None, mm.facts))
+    if not srcs and not direct_ok:
+        B.unknown('apply_macros: bins', 'cannot see how detectors reach the priority bins')
     Cc = rep.rule('C12.c', 'the loop collecting detector errors has no early exit (a rejected macro does not stop the others)', floor=1)
     okc = False
     for st in walk_stmts(am['body']):
@@ -608,9 +666,14 @@ def c12(rep, tier):
     gen_lams = [f for f in mm.facts.functions if f['kind'] == 'lambda' and 'generateParseTables' in f.get('parent', '') and f['tmpl'] in ('none', 'inst')]
     gpt = [f for f in mm.facts.functions if f['q'].endswith('>::generateParseTables') and f['tmpl'] == 'inst']
     n_writes = 0
+    # lambdas of generateParseTables that record a conflict (push onto the result list)
+    recorders = set()
+    for f in gen_lams:
+        if any(is_call(x, '::push_back') for x in walk_all_exprs(f['body'])) and not any(
+                (x.get('k') == 'call' and (x.get('callee') or '').endswith('::operator=')) for x in walk_all_exprs(f['body'])):
+            recorders.add(f['q'])
     for f in gen_lams + gpt:
-        for st in walk_stmts(f['body']):
-            pass
+        gfn = None
         for e in walk_all_exprs(f['body']):
             iswrite = (e.get('k') == 'call' and (e.get('callee') or '').endswith('::operator=') and e.get('obj') is not None) or e.get('k') == 'assign'
             if not iswrite:
@@ -620,22 +683,64 @@ def c12(rep, tier):
                 continue
             n_writes += 1
             cell = show(tgt)
-            # enclosing switch
-            okw = False
-            for sw in walk_stmts(f['body']):
-                if sw['k'] != 'switch':
-                    continue
-                subj = show(strip_casts(sw['c']))
-                for c in sw['cases']:
-                    inside = any(x is e for s in c['s'] for x in walk_all_exprs(s))
-                    if inside:
-                        conflict_cases = [c2 for c2 in sw['cases'] if c2 is not c]
-                        rec = all(any(is_call(x, '::push_back') for x in direct_exprs({'k': 'block', 's': c2['s']})) for c2 in conflict_cases)
-                        labs = set(l.get('name') for c2 in conflict_cases for l in c2['labels'] if isinstance(l, dict))
-                        okw = subj == cell + '.t' and 'default' in c['labels'] and rec and 'REDUCE' in labs
-                        need = {'REDUCE'} if 'place_shift' in f.get('q', '') else {'REDUCE', 'SHIFT'}
-            D.check(okw, '%s: %s = ...' % (f['q'].split('/')[-1], cell), 'default branch of switch(%s.t); the other cases record a conflict' % cell,
-                    'table cell written without conflict check', W(f, e, mm.facts))
+            gfn = gfn or mm.M.cfg(f)
+            ev = gfn.ev(e)
+            rhs = mm.M.origin(f, (e['args'][0] if e.get('k') == 'call' else e['r']))
+            written = None
+            for x in walk_expr(rhs):
+                if x.get('k') == 'ref' and x.get('dk') == 'enumerator' and x['q'].split('::')[-2:-1] == ['Action'] or (x.get('k') == 'ref' and x.get('dk') == 'enumerator' and 'Action' in x.get('q', '')):
+                    written = x['name']
+                    break
+            need = {'REDUCE'} if written == 'SHIFT' else {'REDUCE', 'SHIFT'}
+
+            def eq_kind(K):
+                def pred(c):
+                    if c.get('k') != 'bin' or c['op'] != '==':
+                        return False
+                    sides = [show(strip_casts(c['l'])), show(strip_casts(c['r']))]
+                    return (cell + '.t') in sides and any(x.split('::')[-1] == K or x == K for x in sides)
+                return pred
+            excluded = set()
+            guards = gfn.guards_of(ev)
+            for cond, label, cn in guards:
+                if isinstance(label, tuple) and label[0] == 'case' and show(strip_casts(cond)) == cell + '.t':
+                    if 'default' in label[1] or '<none>' in label[1]:
+                        for b in cn.succ:
+                            if b.kind == 'branch' and isinstance(b.label, tuple):
+                                excluded |= set(x for x in b.label[1] if x not in ('default', '<none>') and x not in label[1])
+                elif isinstance(label, bool):
+                    for K in ('REDUCE', 'SHIFT', 'ACCEPT'):
+                        if guard_implies(cond, label, eq_kind(K), False):
+                            excluded.add(K)
+            missing = need - excluded
+            # every excluded (conflicting) kind must be recorded on its branch
+            unrecorded = []
+            for K in need & excluded:
+                rec = False
+                for ev2 in gfn.calls():
+                    c2 = ev2.e
+                    is_rec = is_call(c2, '::push_back') or (c2.get('callee_lambda_id') in recorders)
+                    if not is_rec or ev2.conditional:
+                        continue
+                    for nid in gfn.dom[ev2.node.id]:
+                        bn = gfn.nodes[nid]
+                        if bn.kind != 'branch' or not bn.of.exprs:
+                            continue
+                        cond, label = gfn.expanded(bn.of.exprs[0]), bn.label
+                        hit = (isinstance(label, tuple) and label[0] == 'case' and show(strip_casts(cond)) == cell + '.t' and K in label[1]) or \
+                              (isinstance(label, bool) and guard_implies(cond, label, eq_kind(K), True))
+                        # recorded on every path through the branch of kind K
+                        if hit and ev2.node.id in gfn.pdom[bn.id]:
+                            rec = True
+                if not rec:
+                    unrecorded.append(K)
+            inst = '%s: %s = %s' % (f['q'].split('/')[-1], cell, written or '?')
+            if missing:
+                D.violation(inst, 'the cell is overwritten although it may already hold a %s action: the conflict is neither detected nor reported' % '/'.join(sorted(missing)), W(f, e, mm.facts))
+            elif unrecorded:
+                D.violation(inst, 'a cell that already holds a %s action is left alone but no conflict is recorded' % '/'.join(sorted(unrecorded)), W(f, e, mm.facts))
+            else:
+                D.ok(inst, 'written only when the cell holds none of %s; each of those cases records a conflict' % sorted(need), W(f, e, mm.facts))
     Ff = rep.rule('C12.f', 'every macro definition gets a detector whose tables are generated from its own pattern', floor=1)
     gd = mm.facts.fn('get_detectors')
     rep.analysed(gd)
@@ -656,21 +761,9 @@ def c12(rep, tier):
     Ff.check(okf, 'get_detectors', '%d push(es), each MacroDetector(def) of the visited definition' % len(pushes), whyf, W(gd, None, mm.facts))
     E = rep.rule('C12.e', 'in prefix mode an item whose look-ahead is the end marker places its action in every column; container keys '
                           'of the LR construction are discriminating strict weak orders', floor=4)
-    okcol = False
     for f in gpt:
         rep.analysed(f)
-        for st in walk_stmts(f['body']):
-            if st['k'] == 'if' and 'accept_prefix' in show(st['c']) and 'eof' in show(st['c']):
-                loops = [x for x in walk_stmts(st['t']) if x['k'] == 'for']
-                if len(loops) == 1:
-                    cv = counter_of(loops[0])
-                    c = show(loops[0]['c'])
-                    i0 = strip_casts(cv['init']) if cv else None
-                    calls = [e for e in walk_all_exprs(loops[0]['body']) if e.get('k') == 'call' and e.get('ck') == 'operator' and e.get('op') == '()']
-                    cols = all(len(e['args']) >= 2 and strip_casts(e['args'][1]).get('d') == cv['d'] for e in calls) if cv else False
-                    okcol = cv is not None and i0 is not None and i0.get('v') == 0 and c.replace(' ', '') == '(%s<action_width)' % cv['name'] and len(calls) == 2 and cols
-    E.check(okcol, 'generateParseTables: prefix mode', 'for (i = 0; i < action_width; i++) place_accept/place_reduce(state, i, ...)',
-            'end-marker items no longer cover every column: open-ended patterns would be accepted', 'Compiler/include/ParserGenerator/lrparser.hpp')
+        prefix_columns_rule(mm, E, f, gen_lams)
     kf = Facts(['Compiler/src/ParserGenerator/grammar.cpp', 'Compiler/src/ParserGenerator/lrdea.cpp'])
     rep.note_facts(kf)
     for f, kind, host in cmpeval.find_comparators(kf):
@@ -694,6 +787,177 @@ def c12(rep, tier):
             E.check(not why, 'operator<(%s)' % pt, 'strict weak order over %s (%d triples), equivalent only if all fields equal' % (c.fields, cnt), '; '.join(why), W(f, None, kf))
         except cmpeval.Unsupported as ex:
             E.unknown('operator<(%s)' % f['params'][0]['cty'], str(ex))
+
+
+def _action_writes(f):
+    for e in walk_all_exprs(f['body']):
+        iswrite = (e.get('k') == 'call' and (e.get('callee') or '').endswith('::operator=') and e.get('obj') is not None) or e.get('k') == 'assign'
+        if not iswrite:
+            continue
+        tgt = strip_casts(e.get('obj') or e.get('l'))
+        if is_call(tgt, '::operator[]') and is_call(strip_casts(tgt['obj']), '::operator[]') and show(strip_casts(tgt['obj'])['obj']).endswith('action'):
+            yield e, tgt
+
+
+def prefix_columns_rule(mm, E, f, lams):
+    """Under the hypothesis H = (accept_prefix && item look-ahead is the end marker) every placement of a completed item
+    reachable in generateParseTables must range over the columns [0, action_width)."""
+    M = mm.M
+    # placers: lambda -> (column parameter index, kinds written)
+    placers = {}
+    for lam in lams:
+        for e, tgt in _action_writes(lam):
+            col = strip_casts(tgt['args'][0])
+            rhs = M.origin(lam, e['args'][0] if e.get('k') == 'call' else e['r'])
+            kinds = set(x['name'] for x in walk_expr(rhs) if x.get('k') == 'ref' and x.get('dk') == 'enumerator')
+            if not kinds & {'REDUCE', 'ACCEPT'}:
+                continue
+            for i, p in enumerate(lam['params']):
+                if col.get('k') == 'ref' and col.get('d') == p.get('d'):
+                    pc = placers.setdefault(lam['q'], [i, set()])
+                    pc[1] |= kinds & {'REDUCE', 'ACCEPT'}
+    changed = True
+    while changed:                       # wrappers forwarding one of their parameters as the column
+        changed = False
+        for lam in lams:
+            for e in walk_all_exprs(lam['body']):
+                pl = placers.get(e.get('callee_lambda_id')) if e.get('k') == 'call' else None
+                if pl is None or lam['q'] == e.get('callee_lambda_id') or len(e['args']) <= pl[0]:
+                    continue
+                col = strip_casts(e['args'][pl[0]])
+                for i, p in enumerate(lam['params']):
+                    if col.get('k') == 'ref' and col.get('d') == p.get('d'):
+                        cur = placers.setdefault(lam['q'], [i, set()])
+                        if not pl[1] <= cur[1]:
+                            cur[1] |= pl[1]
+                            changed = True
+    if not placers:
+        E.unknown('generateParseTables: prefix mode', 'no lambda placing REDUCE/ACCEPT actions by column was recognised')
+        return
+
+    def evalH(c, depth=0):
+        c = strip_casts(c)
+        if c is None or depth > 6:
+            return None
+        if c.get('k') == 'paren':
+            return evalH(c['e'], depth)
+        if c.get('k') in ('ref', 'member') and (c.get('name') == 'accept_prefix' or show(c).endswith('accept_prefix')):
+            return True
+        if c.get('k') == 'ref':
+            o = M.origin(f, c)
+            return evalH(o, depth + 1) if o is not c and o.get('k') != 'ref' else None
+        if c.get('k') == 'un' and c['op'] == '!':
+            v = evalH(c['e'], depth)
+            return None if v is None else not v
+        if c.get('k') == 'bin' and c['op'] in ('&&', '||'):
+            l, r = evalH(c['l'], depth), evalH(c['r'], depth)
+            if c['op'] == '&&':
+                return False if (l is False or r is False) else (True if (l and r) else None)
+            return True if (l or r) else (False if (l is False and r is False) else None)
+        if c.get('k') == 'bin' and c['op'] in ('==', '!='):
+            sides = sorted([show(strip_casts(c['l'])), show(strip_casts(c['r']))])
+            if sides[0].endswith('follow.index') and sides[1].endswith('eof.index') or (sides[1].endswith('follow.index') and sides[0].endswith('eof.index')):
+                return c['op'] == '=='
+        return None
+
+    def mentionsH(c):
+        t = show(c)
+        return 'accept_prefix' in t or ('eof' in t and 'follow' in t)
+
+    def resolve(e, depth=0):
+        e = strip_casts(e)
+        if e is None or depth > 6:
+            return None
+        if e.get('k') == 'paren':
+            return resolve(e['e'], depth)
+        if e.get('k') == 'int':
+            return e['v']
+        if e.get('k') == 'cond':
+            v = evalH(e['c'])
+            return None if v is None else resolve(e['t'] if v else e['f'], depth + 1)
+        if e.get('k') in ('ref', 'member') and show(e).endswith('action_width'):
+            return 'action_width'
+        if e.get('k') == 'ref':
+            o = M.origin(f, e)
+            return resolve(o, depth + 1) if o is not e else None
+        return None
+
+    g = M.cfg(f)
+    loops = {}
+    for st in walk_stmts(f['body']):
+        if st['k'] == 'for':
+            cv = counter_of(st)
+            if cv is not None:
+                loops[cv['d']] = st
+    found = 0
+    kinds_full = set()
+    for ev in g.calls(lambda e: e.get('callee_lambda_id') in placers):
+        pl = placers[ev.e['callee_lambda_id']]
+        if len(ev.e['args']) <= pl[0]:
+            continue
+        reach = True
+        unk = None
+        for cond, label, cn in g.guards_of(ev):
+            if not isinstance(label, bool):
+                continue
+            v = evalH(cond)
+            if v is None:
+                if mentionsH(cond):
+                    unk = 'guard %s' % show(cond)[:80]
+                continue
+            if v != label:
+                reach = False
+        if not reach:
+            continue
+        found += 1
+        inst = 'generateParseTables: prefix mode: %s' % show(ev.e)[:60]
+        if unk:
+            E.unknown(inst, 'cannot decide whether this placement is reached in prefix mode (%s)' % unk)
+            continue
+        col = strip_casts(ev.e['args'][pl[0]])
+        L = loops.get(col.get('d')) if col.get('k') == 'ref' else None
+        if L is None:
+            E.violation(inst, 'in prefix mode an end-marker item is placed in the single column %s: the detector would insist on end of input, '
+                        'or open-ended patterns lose their accept' % show(col), W(f, ev.e, mm.facts))
+            continue
+        cv = counter_of(L)
+        lo = resolve(cv.get('init'))
+        c = strip_casts(L.get('c'))
+        hi = None
+        strict = None
+        if c is not None and c.get('k') == 'bin' and c['op'] in ('<', '!=', '<=') and strip_casts(c['l']).get('d') == cv['d']:
+            hi = resolve(c['r'])
+            strict = c['op'] != '<='
+        inc = strip_casts(L.get('inc')) if L.get('inc') else None
+        okinc = inc is not None and ((inc.get('k') == 'un' and inc['op'] == '++' and strip_casts(inc['e']).get('d') == cv['d']) or
+                                     (inc.get('k') == 'assign' and inc['op'] == '+=' and strip_casts(inc['r']).get('v') == 1))
+        single = False
+        if okinc and c is not None and c.get('k') == 'bin' and strict and cv.get('init') is not None:
+            r = strip_casts(c['r'])
+            while r is not None and r.get('k') == 'ref' and M.origin(f, r) is not r:
+                r = M.origin(f, r)
+            if r is not None and r.get('k') == 'cond' and evalH(r['c']) is not None:
+                r = strip_casts(r['t'] if evalH(r['c']) else r['f'])
+            i0 = strip_casts(cv['init'])
+            if r is not None and r.get('k') == 'bin' and r['op'] == '+' and strip_casts(r['r']).get('v') == 1 and \
+                    show(strip_casts(r['l'])) == show(i0) and lo != 0:
+                single = True
+        if single:
+            E.violation(inst, 'in prefix mode end-marker items are placed in the single column %s instead of every column' % show(cv['init']), W(f, L, mm.facts))
+        elif lo is None or hi is None or not okinc:
+            E.unknown(inst, 'column loop bounds not resolved under the prefix-mode hypothesis (%s; %s)' % (show(cv.get('init')), show(c)))
+        elif lo == 0 and hi == 'action_width' and strict:
+            kinds_full |= pl[1]
+            E.ok(inst, 'columns [0, action_width) under accept_prefix && look-ahead == end marker', W(f, ev.e, mm.facts))
+        else:
+            E.violation(inst, 'end-marker items no longer cover every column in prefix mode (columns from %s to %s%s)' % (lo, hi, '' if strict else ' inclusive'),
+                        W(f, L, mm.facts))
+    if found == 0:
+        E.violation('generateParseTables: prefix mode', 'no placement of a completed item is reachable when accept_prefix holds and the look-ahead is the end marker',
+                    'Compiler/include/ParserGenerator/lrparser.hpp')
+    elif kinds_full and kinds_full != {'REDUCE', 'ACCEPT'}:
+        E.violation('generateParseTables: prefix mode', 'only %s actions are spread over every column in prefix mode' % sorted(kinds_full),
+                    'Compiler/include/ParserGenerator/lrparser.hpp')
 
 
 def prios_name(am):
